@@ -722,6 +722,18 @@ impl<'a> Tr<'a> {
             return Ok(vec!["Ctl.panic".to_string()]);
         }
         let ncols = cx.dterms.len();
+        {
+            let row = &routs[from];
+            let all_wild = row.po.iter().all(|p| p.lean == "_" && p.conds.is_empty() && p.binds.is_empty() && p.view.is_none());
+            if all_wild && arms[row.arm].guard.is_none() {
+                let body = self.arm_body(row, arms, cx, sp)?;
+                let mut lines = vec!["(do".to_string()];
+                lines.extend(ind(body, 4));
+                let last = lines.pop().unwrap();
+                lines.push(format!("{})", last));
+                return Ok(lines);
+            }
+        }
         let mut lines = vec![format!("(match {} with", cx.dterms.join(", "))];
         let mut matrix: Vec<Vec<PTree>> = Vec::new();
         let mut j = from;
